@@ -71,18 +71,39 @@ func c06BlockReaderFunc(r *core.R, m *pbfModel) *FuncInfo {
 // c06TypeAtom evaluates comparisons of a block-header type with a constant for a type that equals no constant.
 func c06TypeAtom(m *pbfModel, scope ast.Node) func(ast.Expr) c01Tri {
 	info := m.info
-	return func(a ast.Expr) c01Tri {
+	// a closure of the spawner sees the spawner's locals: they are expanded in the enclosing declaration
+	outer := scope
+	for _, fi := range allFuncs(m.pk) {
+		if fi.Decl.Body != nil && fi.Decl.Body.Pos() <= scope.Pos() && scope.End() <= fi.Decl.Body.End() {
+			outer = fi.Decl.Body
+		}
+	}
+	depth := 0
+	var atom func(a ast.Expr) c01Tri
+	atom = func(a ast.Expr) c01Tri {
 		x, y, neq, ok := c01EqCmp(a)
 		if !ok {
+			// a boolean local that holds the result of a comparison (or of a combination of comparisons)
+			if id, isId := ast.Unparen(a).(*ast.Ident); isId && depth < 4 {
+				if o := objOf(info, id); o != nil {
+					if rhs := c01SingleDef(info, outer, o); rhs != nil {
+						depth++
+						v := c01Eval(info, rhs, atom)
+						depth--
+						return v
+					}
+				}
+			}
 			return c01U
 		}
 		for _, pr := range [][2]ast.Expr{{x, y}, {y, x}} {
-			if _, isConst := constString(info, pr[1]); isConst && c06IsHeaderType(m, scope, pr[0], 0) {
+			if _, isConst := constString(info, pr[1]); isConst && (c06IsHeaderType(m, scope, pr[0], 0) || c06IsHeaderType(m, outer, pr[0], 0)) {
 				return c01Bool(neq) // other == C is false, other != C is true
 			}
 		}
 		return c01U
 	}
+	return atom
 }
 
 func c06FirstBlock(r *core.R, m *pbfModel) {
